@@ -69,6 +69,9 @@ def run(ctx):
     special_floats(ctx)
     shared_attribute_element_name(ctx)
     repeated_requests(ctx)
+    repeated_raw_element_arguments(ctx)
+    from harness.props import c07
+    c07.handwritten_renderings(ctx)      # (blocks that name their own namespace by prefix / by default / not at all)
     headers_mixing_elements_and_values(ctx)
     tuples_for_repeated_elements(ctx)
     # a wrapper element whose named type lives in another namespace keeps the element's namespace (shared with C08)
@@ -456,6 +459,59 @@ def repeated_requests(ctx):
                 seen.append("%s: %s" % (type(e).__name__, e))
             if seen[-1] != [["t-1"], [["a", "v"]]]:
                 ctx.fail("request differs from what the WSDL prescribes", meta, seen[-1], [["t-1"], [["a", "v"]]])
+                break
+
+
+def repeated_raw_element_arguments(ctx):
+    """A caller-made Element given as a parameter value - with content from other namespaces - is written as it is, in
+    every request it is given to; the caller's tree stays the caller's (same names, namespaces and declarations)."""
+    from suds.sax.element import Element
+    schema = ('<xsd:element name="f"><xsd:complexType><xsd:sequence><xsd:element name="a" type="xsd:string"/>'
+              '<xsd:element name="b" type="xsd:string" minOccurs="0"/></xsd:sequence></xsd:complexType></xsd:element>')
+
+    def canon_sax(n):
+        return [n.namespace()[1], n.name, None if n.getText() is None else str(n.getText()),
+                sorted([a.namespace()[1], a.name, str(a.value)] for a in n.attributes), [canon_sax(c) for c in n.children]]
+
+    def canon_read(x):
+        return [x["name"][0], x["name"][1], x.get("text"),
+                sorted([k[0], k[1], v] for k, v in x.get("attrs", {}).items()) if isinstance(x.get("attrs"), dict) else [],
+                [canon_read(c) for c in x["children"]]]
+    for shape in ("foreign-children", "default-namespace", "attributes"):
+        arg = Element("a", ns=("q", wsdlkit.TNS))
+        if shape == "foreign-children":
+            k = Element("k", ns=("fo", "urn:foreign"))
+            j = Element("j", ns=("fo2", "urn:foreign:2"))
+            j.setText("2")
+            k.append(j)
+            arg.append(k)
+        elif shape == "default-namespace":
+            k = Element("k")
+            k.expns = "urn:foreign"
+            k.append(Element("j").setText("2"))
+            arg.append(k)
+        else:
+            k = Element("k", ns=("fo", "urn:foreign"))
+            k.addPrefix("at", "urn:attr")
+            k.set("at:x", "1")
+            k.setText("t")
+            arg.append(k)
+        before = canon_sax(arg)
+        client = wsdlkit.client(wsdlkit.wsdl_doc(schema, "f", None), nosend=True)
+        other = wsdlkit.client(wsdlkit.wsdl_doc(schema, "f", None), nosend=True)
+        for n, cl in enumerate((client, client, other, client)):
+            meta = {"stream": "repeated-raw-element", "shape": shape, "call": n}
+            ctx.case(common.canon(meta), True)
+            try:
+                env = wsdlkit.envelope_bytes(cl.service.f(arg, "z"))
+                from suds.sax.parser import Parser
+                fnode = Parser().parse(string=env).root().getChild("Body").children[0]
+                got = [canon_sax(fnode.children[0]), [c.name for c in fnode.children], canon_sax(arg)]
+            except Exception as e:
+                got = "%s: %s" % (type(e).__name__, e)
+            want = [before, ["a", "b"], before]
+            if got != want:
+                ctx.fail("request differs from what the WSDL prescribes", meta, got, want)
                 break
 
 
